@@ -494,6 +494,20 @@ def _ready(w: World, it) -> bool:
         return False
     if pool.stop_point is not None and it.point > pool.stop_point:
         return False
+    # internal queue at its limit? (reference: spec queues, last listing
+    # wins; members preparing/submitted/running/awaiting preparation count)
+    queues = (getattr(w, 'spec', None) or {}).get('queues') or {}
+    mine = None
+    for qn, q in queues.items():
+        if it.tdef.name in (q.get('members') or []):
+            mine = q
+    if mine is not None and mine.get('limit'):
+        active = sum(
+            1 for t in pool.get_tasks()
+            if t.tdef.name in mine['members'] and (
+                t.state.status in ACTIVE or t.waiting_on_job_prep))
+        if active >= mine['limit']:
+            return False
     # retry delay pending?
     for t in it.try_timers.values():
         if t is not None and t.timeout is not None and getattr(
@@ -560,9 +574,11 @@ class ShutdownStall(Monitor):
                         'stall-with-active-task',
                         f'stall reported while {it.identity} is '
                         f'{it.state.status}'))
-                elif _ready(w, it) and not it.state.is_runahead:
+                elif _ready(w, it):
                     self.bad.append(self.viol(
-                        'stall-with-ready-task',
+                        'stall-with-ready-task' + (
+                            ':still-flagged-runahead'
+                            if it.state.is_runahead else ''),
                         f'stall reported while {it.identity} is ready to '
                         'run'))
             if schd.message_queue.qsize():
